@@ -15,7 +15,7 @@ import (
 
 func init() { Registry["C15"] = runC15 }
 
-const explanationC15 = "Decides structural necessary conditions of C15 on the source of goa's http package: (R15.1) the media-type→codec decision tables of ResponseEncoder (designed content type branch and the Accept negotiation closure), ResponseDecoder and RequestDecoder are each compared row by row with one reference function (json/xml/gob/text families incl. +json/+xml/+gob/+html/+txt suffixes; response default json, request default unsupported), which also makes encoder and decoder agree with each other; (R15.2) every return of ResponseEncoder is preceded by SetContentType with the media type that belongs to the returned encoder (same negotiate call / parsed designed type); (R15.3) no path returns a nil encoder; (R15.4) the unsupported decoder yields the error named by the constant that the status table maps to 415; (R15.5) text codec type tables; (R15.6) SetContentType's composition table against its doc comment; RequestEncoder announces JSON when it encodes JSON; (R15.7) the XML writer and reader of an error response agree field by field (shared R18.4); shared R16.5 (the 404 body is announced with the negotiated type); R15.5 also requires that a text body that cannot be read in full is an error. NOT decided: byte-level round trips through encoding/json|xml|gob, Accept-header grammar (q-values, lists, wildcards are compared as whole strings by the code), behaviour of mime.ParseMediaType."
+const explanationC15 = "Decides structural necessary conditions of C15 on the source of goa's http package: (R15.1) the media-type→codec decision tables of ResponseEncoder (designed content type branch and the Accept negotiation closure), ResponseDecoder and RequestDecoder are each compared row by row with one reference function (json/xml/gob/text families incl. +json/+xml/+gob/+html/+txt suffixes; response default json, request default unsupported), which also makes encoder and decoder agree with each other; (R15.2) every return of ResponseEncoder is preceded by SetContentType with the media type that belongs to the returned encoder (same negotiate call / parsed designed type); (R15.3) no path returns a nil encoder; (R15.4) the unsupported decoder yields the error named by the constant that the status table maps to 415; (R15.5) text codec type tables; (R15.6) SetContentType's composition table against its doc comment; RequestEncoder announces JSON when it encodes JSON; (R15.7) the XML writer and reader of an error response agree field by field (shared R18.4); shared R16.5 (the 404 body is announced with the negotiated type); R15.5 also requires that a text body that cannot be read in full is an error. shared R05.3 (the default error encoder negotiates its encoder, which announces the type, before it writes the status). NOT decided: byte-level round trips through encoding/json|xml|gob, Accept-header grammar (q-values, lists, wildcards are compared as whole strings by the code), behaviour of mime.ParseMediaType."
 
 var (
 	reMTEq     = regexp.MustCompile(`^\((.+) == "([a-z]+/[a-z]+)"\)$`)
@@ -163,6 +163,7 @@ func runC15(c *an.Ctx) string {
 	r15TextCodecs(c)
 	r15SetContentType(c)
 	r15RequestEncoder(c)
+	r05ErrorEncoder(c)             // shared with C05 (rule id R05.3): the default error encoder obtains its encoder (which sets Content-Type) before the status is written
 	r16NotFound(c)                 // shared with C16 (rule id R16.5): the 404 body is announced with the negotiated Content-Type (encoder obtained before the status is written)
 	errorFieldFidelity(c, "R15.7") // shared with C18/R18.4: the XML writer of an error response and its reader agree field by field
 	return explanationC15
@@ -208,22 +209,49 @@ func r15ResponseEncoder(c *an.Ctx) {
 		}
 	}
 	if negFn == nil {
-		for _, b := range fn.Blocks {
-			for _, in := range b.Instrs {
-				cl, ok := in.(ssa.CallInstruction)
-				if !ok {
-					continue
-				}
-				g := cl.Common().StaticCallee()
-				if g == nil || g.Object() == nil || g.Pkg != fn.Pkg || an.IsReferenceFunc(g) || len(g.Params) == 0 {
-					continue
-				}
-				res := g.Signature.Results()
-				if res.Len() == 2 && strings.HasSuffix(res.At(0).Type().String(), ".Encoder") && types.Identical(res.At(1).Type(), types.Typ[types.String]) {
-					negFn = g
+		// a declared function extracted since the reference tree, called from ResponseEncoder or from another
+		// such helper (two levels)
+		var search func(g *ssa.Function, depth int)
+		seenFn := map[*ssa.Function]bool{}
+		search = func(g *ssa.Function, depth int) {
+			if seenFn[g] || depth > 2 {
+				return
+			}
+			seenFn[g] = true
+			for _, b := range g.Blocks {
+				for _, in := range b.Instrs {
+					cl, ok := in.(ssa.CallInstruction)
+					if !ok {
+						continue
+					}
+					h := cl.Common().StaticCallee()
+					if h == nil || h.Object() == nil || h.Pkg != fn.Pkg || an.IsReferenceFunc(h) || len(h.Params) == 0 {
+						continue
+					}
+					res := h.Signature.Results()
+					last := h.Params[len(h.Params)-1].Type()
+					if res.Len() == 2 && strings.HasSuffix(res.At(0).Type().String(), ".Encoder") && types.Identical(res.At(1).Type(), types.Typ[types.String]) && types.Identical(last, types.Typ[types.String]) {
+						// the negotiator is the one that compares its media type with constants and does not
+						// call another candidate
+						callsCandidate := false
+						for _, hb := range h.Blocks {
+							for _, hin := range hb.Instrs {
+								if hc, ok := hin.(ssa.CallInstruction); ok {
+									if k := hc.Common().StaticCallee(); k != nil && k != h && k.Pkg == fn.Pkg && !an.IsReferenceFunc(k) && k.Signature.Results().Len() == 2 && strings.HasSuffix(k.Signature.Results().At(0).Type().String(), ".Encoder") {
+										callsCandidate = true
+									}
+								}
+							}
+						}
+						if !callsCandidate {
+							negFn = h
+						}
+					}
+					search(h, depth+1)
 				}
 			}
 		}
+		search(fn, 0)
 	}
 	negName := ""
 	if negFn != nil {
